@@ -406,8 +406,8 @@ Definition step (s : cst) (e : ev) : option cst :=
   | CT_RENDERERR =>
       match ph s with
       | Idle =>   (* the output writer failed while the frame was being written *)
-          if ct_exited s then None else Some (cs_out_pending (cs_cancelled (cs_errored s true) true) false)
-      | Failed => Some (cs_cancelled (cs_errored (cs_ph s Idle) true) true)
+          if ct_exited s || errored s then None else Some (cs_out_pending (cs_cancelled (cs_errored s true) true) false)
+      | Failed => if errored s then None else Some (cs_cancelled (cs_errored (cs_ph s Idle) true) true)
       | Rendering _ _ _ _ _ _ => None
       end
   | CT_FRAME nrows pcnt =>
